@@ -131,7 +131,7 @@ def read_trace(path):
 
 def trace_bounds(evs_list):
     """universe sizes needed by the trace spec for these traces"""
-    b = {'NW': 1, 'MaxD': 2, 'MaxS': 2, 'MaxTag': 1, 'MaxObj': 1, 'MaxL': 2}
+    b = {'NW': 1, 'MaxD': 2, 'MaxS': 2, 'MaxTag': 1, 'MaxObj': 1, 'MaxL': 2, 'MaxQ': 1}
     for evs in evs_list:
         for e in evs:
             n, a = e['e'], e['a']
@@ -146,16 +146,29 @@ def trace_bounds(evs_list):
                 b['MaxTag'] = max(b['MaxTag'], a[1])
             elif n == 'U_BodyStart':
                 b['MaxTag'] = max(b['MaxTag'], a[0])
-            elif n in OBJ_EVENTS:
+            if n in OBJ_EVENTS:
                 for i in OBJ_EVENTS[n]:
                     if i < len(a):
                         b['MaxObj'] = max(b['MaxObj'], a[i])
+            if n in Q_EVENTS:
+                for i in Q_EVENTS[n]:
+                    if i < len(a):
+                        b['MaxQ'] = max(b['MaxQ'], a[i])
+            if n == 'Block' and a[2] < 0:
+                b['MaxObj'] = max(b['MaxObj'], -a[2])
             elif n in LOCK_EVENTS:
                 b['MaxL'] = max(b['MaxL'], a[0])
     return b
 
 
-OBJ_EVENTS = {}   # event name -> argument positions holding synchronisation-object ids (filled by spec families)
+# event name -> argument positions (0-based) holding synchronisation-object ids / sleep-queue ids
+OBJ_EVENTS = {'MxLd': [0], 'MxCas': [0], 'MxWake': [0], 'MxClr': [0], 'CvWait': [0, 2], 'CvSignal': [0], 'BrLd': [0],
+              'BrWake': [0], 'JcInit': [0], 'JcLd': [0], 'JcWake': [0], 'UcPub': [0], 'UcLd': [0], 'OnLd': [0],
+              'FeChk': [0], 'FeMark': [0], 'U_LockCall': [1], 'U_TryLockCall': [1], 'U_CondWaitCall': [1, 2],
+              'U_CondSignalCall': [1], 'U_BarrierCall': [1], 'U_JcWaitCall': [1], 'U_JcDecCall': [1],
+              'U_UcWaitCall': [1], 'U_UcSignalCall': [1], 'U_OnceCall': [1], 'U_FeWaitLockCall': [1], 'U_FeMarkCall': [1]}
+Q_EVENTS = {'SqEnq': [0], 'SqDeq': [0], 'StPush': [0], 'StPop': [0], 'Block': [1], 'MxWake': [1], 'CvWait': [1],
+            'CvSignal': [1], 'BrWake': [1], 'JcWake': [1]}
 LOCK_EVENTS = {'SpinAcq': 1, 'SpinRel': 1}
 
 
@@ -278,9 +291,14 @@ OP = dict(END=0, CR=1, JN=2, TJ=3, DT=4, YD=5, EX=6, RET=7, LK=8, TL=9, UL=10, I
 F_PF, F_DETACH, F_STACK, F_ATTR, F_NULLID, F_DIRTY = 1, 2, 4, 8, 16, 32
 
 
-def write_prog(path, bodies):
+def write_prog(path, bodies, init=()):
+    """init: list of (kind, idx, n): kind 1 barrier participants, 2 join-counter count, 3 buffer capacity"""
+    if isinstance(bodies, dict):
+        init = bodies.get('init', ())
+        bodies = bodies['bodies']
     with open(path, 'w') as f:
         f.write('%d\n' % len(bodies))
+        f.write('%d ' % len(init) + '  '.join('%d %d %d' % tuple(i) for i in init) + '\n')
         for ops in bodies:
             f.write('%d ' % len(ops) + '  '.join('%d %d %d %d' % tuple(o) for o in ops) + '\n')
 
